@@ -166,18 +166,57 @@ def generate(rng, n, tier="quick"):
         has_else = r.chance(0.4)
         t = ref.truthy(vv, False)
         pick = r.pick(["if", "if", "unless", "with"])
+        def any_body():
+            from .C03 import _no_open, rand_text
+            if r.chance(0.4):
+                return "A"
+            X_ = _no_open(rand_text(r, r.range(1, 12))).replace("\\", "/")
+            return r.pick(["a", "<", "}", "\u00e9", "x"]) + X_ + r.pick(["z", ">", "}", "\u4e2d", "0"])
         if not has_else and pick == "unless":
-            src = L + "{{#unless v}}A{{/unless}}" + R
-            exp = L + ("" if t else "A") + R
+            # (… unless_block_any_body_renders_by_falsiness / with_block_any_body_renders_by_truthiness: any body text)
+            X = any_body()
+            src = L + "{{#unless v}}" + X + "{{/unless}}" + R
+            exp = L + ("" if t else X) + R
         elif not has_else and pick == "with":
-            src = L + "{{#with v}}A{{/with}}" + R
-            exp = L + ("A" if t else "") + R
+            X = any_body()
+            src = L + "{{#with v}}" + X + "{{/with}}" + R
+            exp = L + (X if t else "") + R
         else:
-            src = L + ("{{#if v}}A{{else}}B{{/if}}" if has_else else "{{#if v}}A{{/if}}") + R
-            exp = L + ("A" if t else ("B" if has_else else "")) + R
+            # (the family of C06.if_block_any_body_renders_by_truthiness: ANY body text that begins and ends with a non-whitespace
+            # character, has no `{{` and no backslash – multi-line bodies, lone braces, Unicode included)
+            X = "A"
+            if not has_else and r.chance(0.6):
+                from .C03 import _no_open, rand_text
+                X = _no_open(rand_text(r, r.range(1, 12))).replace("\\", "/")
+                X = r.pick(["a", "<", "}", "\u00e9", "x"]) + X + r.pick(["z", ">", "}", "\u4e2d", "0"])
+            src = L + ("{{#if v}}A{{else}}B{{/if}}" if has_else else "{{#if v}}" + X + "{{/if}}") + R
+            exp = L + ((X if not has_else else "A") if t else ("B" if has_else else "")) + R
         case = session({}, [], {"api": "render_template", "src": src}, {"v": vv})
         case["id"] = "%s-thm%04d" % (ID, k)
         out.append((case, {"mode": "thm", "oracle": ["must", exp], "shape": [vn, has_else, L, R]}))
+    # a conditional in the BODY OF A PARTIAL BLOCK: a decorator (an inline partial definition) in a branch the condition does not select
+    # must not take effect – the partial is called with the definitions made outside the conditional; every block kind, plain
+    # else and else-chains, the definition in the unselected first / middle / last link
+    kk = 0
+    for kind, truthy, falsy in (("if", 1, 0), ("unless", 0, 1), ("with", {"a": 1}, None), ("each", [1], [])):
+        shapes = [
+            # (body of the conditional, data value, expected nav)
+            ("{{#%s c}}{{else}}{{#*inline \"nav\"}}guest{{/inline}}{{/%s}}" % (kind, kind), truthy),
+            ("{{#%s c}}{{#*inline \"nav\"}}sel{{/inline}}{{/%s}}" % (kind, kind), falsy),
+            ("{{#%s c}}x{{else if d}}{{#*inline \"nav\"}}mid{{/inline}}{{else}}y{{/%s}}" % (kind, kind), truthy),
+            ("{{#%s c}}x{{else unless c}}y{{else with c}}{{#*inline \"nav\"}}third{{/inline}}{{/%s}}" % (kind, kind), truthy),
+            ("{{#%s c}}{{#if d}}{{else}}{{#*inline \"nav\"}}deep{{/inline}}{{/if}}{{/%s}}" % (kind, kind), falsy),
+        ]
+        for body, val in shapes:
+            for layout in ("<{{> nav}}>", "<{{> nav}}|{{> @partial-block}}|{{> nav}}>"):
+                src = "{{#> layout}}{{#*inline \"nav\"}}default{{/inline}}" + body + "{{/layout}}"
+                case = session({"escape": "none"}, [("layout", layout), ("main", src)], {"api": "render", "name": "main"}, {"c": val, "d": 1})
+                case["id"] = "%s-pbdeco%03d" % (ID, kk)
+                kk += 1
+                simple = layout == "<{{> nav}}>"
+                out.append((case, {"mode": "pbdeco", "oracle": (["must", "<default>"] if simple else
+                                                             ["any", "what a definition made while the block body is rendered means for later calls is not stated; model and crate are compared"]),
+                                   "shape": [kind, body, layout]}))
     # random nested part
     j = 0
     target = len(out) + n
